@@ -28,6 +28,11 @@ API (everything is plain data; every random choice comes from the `rng` you pass
          .end       expected end offset of that span (None when it depends on parser internals)
          .fs        extra in-memory files the fault needs (for impl.assemble(fs=...)); usually {}
          .kind      the Fault
+         .others    [(start, end)] of the secondary locations (in the order the report site gives
+                    them) when a set-up statement of the kind carries a marked token, e.g. the first
+                    definition of a duplicate symbol
+  CROSS, plant_cross(...)    diagnostics with locations in TWO files (duplicate exports, second '.link'),
+                    CROSS_NAMES / CROSS_INCLUDE_NAMES: file names sorting both ways
   LEADS                      a list of `lead` strings exercising tabs / non-ASCII / comments
   kinds_by_phase()           dict phase -> [name]
 
@@ -37,7 +42,7 @@ white space and comments before it notices that something is missing).
 """
 import collections
 
-Planted = collections.namedtuple("Planted", "source ident severity offset end fs kind")
+Planted = collections.namedtuple("Planted", "source ident severity offset end fs kind others")
 
 L, R = "«", "»"
 
@@ -128,15 +133,15 @@ _k("register-expected", "compile", "error", "invalid-addressing", "«sob 5, .»"
    note="the report site passes the whole instruction, not the operand")
 _k("accumulator-expected", "compile", "error", "invalid-addressing", "«ldf (r0), r1»",
    note="the report site passes the whole instruction, not the operand")
-_k("duplicate-label", "compile", "error", "duplicate-symbol", "«dl{u}:» nop", pre=["dl{u}: nop"])
-_k("duplicate-constant", "compile", "error", "duplicate-symbol", "«dc{u} = 2»", pre=["dc{u} = 1"],
+_k("duplicate-label", "compile", "error", "duplicate-symbol", "«dl{u}:» nop", pre=["«dl{u}:» nop"])
+_k("duplicate-constant", "compile", "error", "duplicate-symbol", "«dc{u} = 2»", pre=["«dc{u} = 1»"],
    note="the report site passes the whole assignment")
 _k("duplicate-local-label", "compile", "error", "duplicate-symbol", "1: nop\n«1:» nop")
 _k("label-inside-repeat", "compile", "error", "unexpected-symbol-definition", ".repeat 2 { «lr{u}:» nop }")
 _k("constant-inside-repeat", "compile", "error", "unexpected-symbol-definition", ".repeat 2 { «cr{u} = 1»\n }",
    note="the report site passes the whole assignment")
-_k("label-as-insn", "compile", "error", "meta-type-mismatch", "«li{u}» r0", pre=["li{u}: nop"])
-_k("constant-as-insn-without-comma", "compile", "error", "meta-type-mismatch", "«ci{u}» 3", pre=["ci{u} = 5"])
+_k("label-as-insn", "compile", "error", "meta-type-mismatch", "«li{u}» r0", pre=["«li{u}:» nop"])
+_k("constant-as-insn-without-comma", "compile", "error", "meta-type-mismatch", "«ci{u}» 3", pre=["«ci{u} = 5»"])
 _k("code-block-to-insn", "compile", "error", "wrong-operands", "«mov r0 { nop }»",
    note="the report site passes the whole instruction including the block")
 _k("code-block-to-meta", "compile", "error", "wrong-meta-operands", "«.word 1 { nop }»",
@@ -145,7 +150,7 @@ _k("hash-in-directive", "compile", "error", "excess-hash", ".word «#5»",
    note="an error in a metacommand (metacommand_impl.py), a warning in an instruction (insns.py)")
 _k("hash-in-implicit-immediate", "compile", "warning", "excess-hash", "trap «#5»")
 _k("meta-without-dot", "compile", "warning", "meta-typo", "«even»")
-_k("second-link", "compile", "error", "address-conflict", "«.link 2000»", pre=[".link 1000"], needs_no_link=True,
+_k("second-link", "compile", "error", "address-conflict", "«.link 2000»", pre=["«.link 1000»"], needs_no_link=True,
    note="the report site passes the whole metacommand")
 
 # ---- evaluation-time (deferred values: reported long after parsing) -----------------------------
@@ -206,7 +211,7 @@ _k("backward-skip", "eval", "error", "value-out-of-bounds", "«. = . - 2»", pre
    note="the report site passes the whole assignment")
 _k("include-directory", "eval", "error", "io-error", "«.include \"dir{u}\"»", fs={"dir{u}": IsADirectoryError},
    note="the report site passes the whole '.include' statement")
-_k("duplicate-export", "eval", "error", "duplicate-symbol", "«de{u}::» nop", pre=[".extern de{u}"])
+_k("duplicate-export", "eval", "error", "duplicate-symbol", "«de{u}::» nop", pre=[".extern «de{u}»"])
 _k("invalid-code-point", "eval", "error", "value-out-of-bounds", ".ascii \"a\"<«2000000»>")
 _k("ascii-byte-too-large", "eval", "error", "value-out-of-bounds", ".ascii \"a\" <«400»> \"b\"")
 
@@ -286,15 +291,28 @@ def _skip_ws_comments(src, p):
     return p
 
 
+def _marked(text, base):
+    """(clean text, (start, end) of the marked token relative to base, or None)"""
+    if L in text:
+        a, b = text.index(L), text.index(R)
+        return _strip(text), (base + len(_strip(text[:a])), base + len(_strip(text[:b])))
+    return text, None
+
+
 def plant(kind, stmts, pos, lead="", tag="q"):
     k = KINDS[kind] if isinstance(kind, str) else kind
     assert 0 <= pos <= len(stmts)
     sub = lambda s: s.replace("{u}", tag)
-    pre = [sub(s) for s in k.pre]
+    others, head = [], ""
+    for s0 in k.pre:                      # set-up statements; a marked token there is a secondary location
+        clean0, span0 = _marked(sub(s0), len(head))
+        if span0:
+            others.append(span0)
+        head += clean0 + "\n"
     post = [sub(s) for s in k.post]
     stmt = sub(k.stmt)
     lead = sub(lead)
-    head = "".join(s + "\n" for s in pre + list(stmts[:pos]))
+    head += "".join(s + "\n" for s in list(stmts[:pos]))
     tail = "".join(s + "\n" for s in list(stmts[pos:]) + post)
     body = lead + stmt
     clean = _strip(body)
@@ -308,4 +326,50 @@ def plant(kind, stmts, pos, lead="", tag="q"):
         off = len(head) + len(_strip(body[:a]))
         end = len(head) + len(_strip(body[:b]))
     fs = {sub(p): v for p, v in k.fs.items()}
-    return Planted(source, k.ident, k.severity, off, end, fs, k)
+    return Planted(source, k.ident, k.severity, off, end, fs, k, others)
+
+
+# ---- diagnostics with locations in TWO files ------------------------------------------------------
+# name -> (identifier, severity, statement for the OTHER file, statement for the CULPRIT's file, order, include_ok, note)
+#   the culprit is the declaration pdpy11 meets second; the report site passes (culprit, previous) in that order.
+#   order 'second': the culprit's file must be linked after the other one;  'any': either link order
+#   include_ok: also meaningful with the culprit's file pulled in by '.include' from the other file
+Cross = collections.namedtuple("Cross", "name ident severity other culprit order include_ok note")
+CROSS = collections.OrderedDict()
+for _c in [
+    Cross("x-duplicate-exported-label", "duplicate-symbol", "error", "«xl{u}::» nop", "«xl{u}::» nop", "second", True,
+          "compiler.declare_external_symbol: (this declaration, the previous one)"),
+    Cross("x-duplicate-exported-constant", "duplicate-symbol", "error", "«xc{u} == 5»", "«xc{u} == 6»", "second", True,
+          "both locations are whole assignments"),
+    Cross("x-duplicate-extern-directive", "duplicate-symbol", "error", "xe{u}: nop\n.extern «xe{u}»", "xe{u}: nop\n.extern «xe{u}»", "second", True,
+          "'.extern' is evaluated late, in file order; the locations are the operands"),
+    Cross("x-extern-directive-after-exported-label", "duplicate-symbol", "error", "«xm{u}::» nop", "xm{u}: nop\n.extern «xm{u}»", "any", True,
+          "labels are declared while compiling, '.extern' when evaluated: the '.extern' is second in either link order"),
+    Cross("x-extern-all-after-exported-label", "duplicate-symbol", "error", "«xa{u}::» nop", ".extern «all»\nxa{u}: nop", "any", True,
+          "'.extern all' is the reported location of what it exports"),
+    Cross("x-exported-constant-after-exported-label", "duplicate-symbol", "error", "«xk{u}::» nop", "«xk{u} == 7»", "second", True,
+          "label first, constant second"),
+    Cross("x-second-link", "address-conflict", "error", "«.link 1000»", "«.link 2000»", "second", False,
+          "compiler.set_link_address: (this statement, where the base was set); an included file has its own base"),
+    Cross("x-link-after-dot-assignment", "address-conflict", "error", "«. = 1000»", "«.link 2000»", "any", False,
+          "'. = e' sets the base while compiling, '.link' when evaluated: the '.link' is second in either link order"),
+]:
+    CROSS[_c.name] = _c
+
+# (name of the other file, name of the culprit's file): the culprit's name sorts after / before the other
+CROSS_NAMES = [("a.mac", "b.mac"), ("z.mac", "b.mac"), ("lib.mac", "main.mac"), ("main.mac", "lib.mac")]
+CROSS_INCLUDE_NAMES = [("a.mac", "z/inc.mac"), ("m.mac", "a/inc.mac")]      # (including file, included culprit)
+
+
+def plant_cross(kind, other_stmts, culprit_stmts, pos_other, pos_culprit, lead="", tag="q"):
+    """-> (other_source, culprit_source, (c_off, c_end), (o_off, o_end), Cross)"""
+    k = CROSS[kind] if isinstance(kind, str) else kind
+    sub = lambda s: s.replace("{u}", tag)
+
+    def put(stmts, pos, text):
+        head = "".join(s + "\n" for s in stmts[:pos])
+        clean, span = _marked(text, len(head))
+        return head + clean + "\n" + "".join(s + "\n" for s in stmts[pos:]), span
+    osrc, ospan = put(list(other_stmts), pos_other, sub(k.other))
+    csrc, cspan = put(list(culprit_stmts), pos_culprit, sub(lead) + sub(k.culprit))
+    return osrc, csrc, cspan, ospan, k
